@@ -114,5 +114,7 @@ pub fn c04() -> Vec<Suite> {
     vec![um_model::c04_model(), mk_c04()]
 }
 pub fn c27() -> Vec<Suite> {
-    vec![um_model::c27_model(), mk_c27()]
+    let mut v = vec![um_model::c27_model(), mk_c27()];
+    v.extend(super::c27desc::suites());
+    v
 }
